@@ -283,8 +283,11 @@ def falsify_views(est, L, P):
     if abs(qf - dist[i] ** 2) > 1e-9 * bound2 + 1e-300:
       return ('pair_distance**2 != quadratic form of M', (float(dist[i]) ** 2, qf))
     m = f(P[i, 0], P[i, 1])
-    if abs(m ** 2 - dist[i] ** 2) > 1e-9 * bound2 + 1e-300:
-      return ('get_metric != pair_distance', (m, float(dist[i])))
+    if not np.isfinite(m) or m < 0 or abs(m ** 2 - dist[i] ** 2) > 1e-9 * bound2 + 1e-300:
+      return ('get_metric != pair_distance', (float(m), float(dist[i])))
+    m2 = f(P[i, 0], P[i, 1], squared=True)
+    if not np.isfinite(m2) or m2 < 0 or abs(m2 - dist[i] ** 2) > 1e-9 * bound2 + 1e-300:
+      return ('get_metric(squared=True) != pair_distance**2 (a squared distance is a sum of squares: never negative)', (float(m2), float(dist[i]) ** 2))
   if not np.allclose(tr0, P[:, 0, :].dot(L.T), rtol=1e-9, atol=1e-9 * float(np.abs(tr0).max() + 1e-300)):
     return ('transform != X L^T', None)
   nM = float(np.abs(M).max()) + 1e-300
